@@ -438,13 +438,11 @@ fn random_expr(rng: &mut Rng, a: &Alphabet, depth: u32) -> String {
 /// (histogram `skipped`), and all but the listed-known ones raise a violation
 const SKIP_REASONS: &[&str] = &[
     "not-buildable",
-    "evaluator-panic:known-hex-exponent-overflow(C08-P1)",
     "evaluator-panic:UNEXPECTED",
     "oracle-run-timeout",
     "oracle-run-protocol-error",
     "e2e:program-not-buildable",
     "e2e:rule-error",
-    "e2e:rule-panic:known-hex-exponent-overflow(C08-P1)",
     "e2e:rule-panic:UNEXPECTED",
     "random-tree-over-6000-bytes(regenerated)",
 ];
@@ -645,20 +643,11 @@ fn oracle(model: &mut Model, ctx: &Ctx, real: &Answers, expr: &str, all_envs: bo
 fn finding_for_tags(tags: &[String], why: &str) -> Option<&'static str> {
     let has = |t: &str| tags.iter().any(|x| x == t);
     if why.contains("side-effect free") {
-        if has("interp") {
-            return Some("F4");
-        }
-        if has("numeq") {
-            return Some("F1");
-        }
         // a wrongly folded `..` decides a comparison, hence a branch, hence what is declared pure
         if has("numfmt") {
             return Some("F3");
         }
         return None;
-    }
-    if has("numeq") {
-        return Some("F1");
     }
     if has("numfmt") {
         return Some("F3");
@@ -713,14 +702,9 @@ fn check_case(model: &mut Model, ctx: &Ctx, r: &mut Report, wire: &str, source: 
     let real = match real_answers(&expr) {
         Some(a) => a,
         None => {
-            // The real Evaluator took the process down where the model answers. The only panic of the
-            // unchanged tree is the hex-exponent overflow of `HexNumber::compute_value` (known finding
-            // C12-F10, listed for C08 as C08-P1): attributed when such a literal occurs in the expression.
+            // The real Evaluator took the process down where the model answers: never excused
+            // (the hex-exponent overflow C08-P1 = C12-F10, once the only panic, is fixed).
             r.count("evaluator_panics", 1);
-            if model.ask(&format!("c08.panicclass {}", wire)) == "true" {
-                r.hist("skipped", "evaluator-panic:known-hex-exponent-overflow(C08-P1)");
-                return;
-            }
             r.hist("skipped", "evaluator-panic:UNEXPECTED");
             let model_text = model.ask(&format!("c08.eval {}", wire));
             // smallest panicking sub-expression
@@ -882,9 +866,7 @@ fn end_to_end(model: &mut Model, ctx: &Ctx, r: &mut Report, wire: &str, rule: &d
         }
         Err(_) => {
             r.count("e2e_rule_panics", 1);
-            if model.ask(&format!("c08.panicclass {}", wire)) == "true" {
-                r.hist("skipped", "e2e:rule-panic:known-hex-exponent-overflow(C08-P1)");
-            } else {
+            {
                 r.hist("skipped", "e2e:rule-panic:UNEXPECTED");
                 r.violation(Violation {
                     kind: "correspondence".into(),
@@ -982,6 +964,9 @@ fn parse_outcome_values(o: &str) -> Option<usize> {
 
 fn replay_known_findings(model: &mut Model, ctx: &Ctx, r: &mut Report) {
     for entry in report::known_findings("C08") {
+        if entry["status"].as_str() != Some("known") {
+            continue; // a fixed entry suppresses nothing and is not replayed as a finding (its witness is in the corpus)
+        }
         let id = entry["id"].as_str().unwrap_or("?").to_owned();
         let wire = match entry["witness"]["expr"].as_str() {
             Some(w) => w.to_owned(),
@@ -1001,17 +986,7 @@ fn replay_known_findings(model: &mut Model, ctx: &Ctx, r: &mut Report) {
             }
             None => {
                 if entry["witness"]["panics"].as_bool() == Some(true) {
-                    if model.ask(&format!("c08.panicclass {}", wire)) == "true" {
-                        r.known_finding(&id, &format!("{} — the real Evaluator panics (u64 overflow in HexNumber::compute_value); the model answers {}", entry["source"].as_str().unwrap_or(""), model.ask(&format!("c08.eval {}", wire))));
-                    } else {
-                        r.violation(Violation {
-                            kind: "finding-changed".into(),
-                            check: format!("known-finding:{}", id),
-                            what: format!("witness of {} panics but is not in the listed literal class", id),
-                            input: json!({"expr": wire}),
-                            failing_input_found: false,
-                        });
-                    }
+                    r.known_finding(&id, &format!("{} — the real Evaluator panics; the model answers {}", entry["source"].as_str().unwrap_or(""), model.ask(&format!("c08.eval {}", wire))));
                 }
                 continue;
             }
